@@ -130,6 +130,13 @@ func RandExpires(r *emit.Rand, now time.Time, maxOff time.Duration) Expires {
 		at = time.Unix(0, 0)
 		off = at.Sub(now)
 	}
+	if r.Chance(8) {
+		// the current second ("Expires: <same as Date>", the usual way of saying "already expired"): in the past by less
+		// than a second — and it stays in the past, time only moves on
+		at = now.Truncate(time.Second)
+		off = at.Sub(now)
+		form = "imf"
+	}
 	return Expires{Kind: ExpAt, Line: DateLine(at, form), At: at, Form: form, Offset: off}
 }
 
